@@ -6,6 +6,10 @@ for be in ('epoll', 'select'):
         JOBS.append(Job('%s.actor%d' % (be, a), 'C03/fd_events.cpp', 'h_' + be, 'B', defs={'ACTOR': a}, reach=[be], timeout=1700, clause='%s back end, event %d mutates (disable self / disable, enable, destroy another) inside its callback' % (be, a)))
 JOBS.append(Job('agree.plain', 'C03/fd_events.cpp', 'h_agree', 'B', reach=['agree'], timeout=1700, clause='epoll vs select agreement without mutation'))
 JOBS.append(Job('agree.actor0', 'C03/fd_events.cpp', 'h_agree', 'B', defs={'ACTOR': 0}, reach=['agree'], timeout=1700, clause='epoll vs select agreement with event 0 mutating, one descriptor ready'))
+JOBS.append(Job('multi.epoll', 'C03/fd_events.cpp', 'h_multi_epoll', 'B', defs={'MPASS': 2}, reach=['multi_epoll'], timeout=1700, clause='epoll: 2 passes inside one runLoop(kForever), 3 persistent events (one on descriptor 0), readiness symbolic per pass, receive array starting at 2 entries so that the full-array growth step and the following pass are exercised'))
+JOBS.append(Job('multi.select', 'C03/fd_events.cpp', 'h_multi_select', 'B', defs={'MPASS': 2}, reach=['multi_select'], timeout=1700, clause='select: 2 passes inside one runLoop(kForever), 3 persistent events (one on descriptor 0), readiness symbolic per pass'))
+JOBS.append(Job('multi.epoll.p3', 'C03/fd_events.cpp', 'h_multi_epoll', 'B', defs={'MPASS': 3}, reach=['multi_epoll'], timeout=3400, tier='thorough', clause='epoll: 3 passes, small receive array'))
+JOBS.append(Job('multi.select.p3', 'C03/fd_events.cpp', 'h_multi_select', 'B', defs={'MPASS': 3}, reach=['multi_select'], timeout=3400, tier='thorough', clause='select: 3 passes'))
 META = dict(
     explanation='The real EpollLoop + EpollFdEvent and SelectLoop + SelectFdEvent (with CommonLoop, unordered_map/map bookkeeping and ObjectPool) run one real loop pass (runLoop(kOnce)) in engine/symir.py on a harness-level kernel seam (epoll_create1/epoll_ctl/epoll_wait, select, eventfd, read/write/close with level-triggered readiness set by the harness). '
                 'Three events on two descriptors (two sharing one): subscription masks of the sharing events, one-shot/persistent, readiness of both descriptors, and what one event does inside its callback (disable itself; disable, enable or destroy another event) are symbolic. At every callback the event must be alive, enabled at dispatch (one-shot: already disabled), '
